@@ -78,13 +78,19 @@ func cleanupCLI() {
 
 var devNull *os.File
 
+// content of the scratch file as far as this process knows (it is the only writer)
+var cliFileHolds = "\x00"
+
 // cliAutoFix runs the real command `gosqlx lint --auto-fix <file>` in this process
 // (cmd.Execute is what main() calls) on a scratch file and returns the file's
 // content afterwards.
 func cliAutoFix(text string) (string, error) {
 	p := cliFile()
-	if err := os.WriteFile(p, []byte(text), 0o644); err != nil {
-		return "", err
+	if text != cliFileHolds {
+		cliFileHolds = "\x00"
+		if err := os.WriteFile(p, []byte(text), 0o644); err != nil {
+			return "", err
+		}
 	}
 	if devNull == nil {
 		devNull, _ = os.OpenFile(os.DevNull, os.O_WRONLY, 0)
@@ -98,6 +104,9 @@ func cliAutoFix(text string) (string, error) {
 		_ = cli.Execute()
 	}()
 	b, err := os.ReadFile(p)
+	if err == nil {
+		cliFileHolds = string(b)
+	}
 	return string(b), err
 }
 
@@ -110,11 +119,19 @@ func frame(v any) []byte {
 
 type obj = map[string]any
 
+var errServerPanic = fmt.Errorf("language server panicked")
+
 // lspFormat opens the text in a fresh language server (real lsp.Server reading
 // framed JSON-RPC from an in-memory stream), asks for textDocument/formatting with
 // the given indentation option, and applies the returned edits to the text.
-func lspFormat(text string, insertSpaces bool) (string, error) {
+func lspFormat(text string, insertSpaces bool) (out string, err error) {
 	const uri = "file:///t.sql"
+	defer func() {
+		// a server that panics on a text is the business of C18, not of this property
+		if r := recover(); r != nil {
+			out, err = "", errServerPanic
+		}
+	}()
 	var in bytes.Buffer
 	in.Write(frame(obj{"jsonrpc": "2.0", "id": 1, "method": "initialize", "params": obj{"processId": nil, "rootUri": nil, "capabilities": obj{}}}))
 	in.Write(frame(obj{"jsonrpc": "2.0", "method": "initialized", "params": obj{}}))
